@@ -326,20 +326,22 @@ def Scenario.hist (sc : Scenario) : Hist where
     | some (.acts script) => scriptAt sc s script (topOwner t) 0 i
     | _ => none
 
+/-- Spawns world reactor number `acc.2` (of the kind `isEwr` says) from definition `d`: a system command with its callback
+    stored, as `add_world_reactor` / `add_entity_reactor` do while the `App` is built. -/
+def Scenario.addSys (sc : Scenario) (isEwr : Bool) (acc : St × Nat) (d : Nat) : St × Nat :=
+  let s := acc.1.fresh.2
+  let e := acc.1.nextEnt
+  let excl := ((sc.defs[d]?).map (·.excl)).getD false
+  let s1 : St := { s with sysNames := s.sysNames ++ [e], info := upd s.info e { defn := d, excl := excl },
+                          storage := upd s.storage e (some true) }
+  (if isEwr then { s1 with ewrSys := upd s1.ewrSys acc.2 e } else { s1 with wrSys := upd s1.wrSys acc.2 e }, acc.2 + 1)
+
 /-- Initial state: the world reactors of the scenario are spawned as named persistent systems. -/
 def Scenario.init (sc : Scenario) : St :=
-  let addSys (isEwr : Bool) (acc : St × Nat) (d : Nat) : St × Nat :=
-    let (s, k) := acc
-    let (e, s) := s.fresh
-    let excl := ((sc.defs[d]?).map (·.excl)).getD false
-    let s : St := { s with sysNames := s.sysNames ++ [e], info := upd s.info e { defn := d, excl := excl },
-                           storage := upd s.storage e (some true) }
-    let s : St := if isEwr then { s with ewrSys := upd s.ewrSys k e } else { s with wrSys := upd s.wrSys k e }
-    (s, k + 1)
   let s0 : St := { wrSys := fun _ => 4000000000, ewrSys := fun _ => 4000000000 }
-  let (s, _) := sc.wrs.foldl (addSys false) (s0, 0)
-  let (s, _) := sc.ewrs.foldl (addSys true) (s, 0)
-  s
+  let r1 := sc.wrs.foldl (sc.addSys false) (s0, 0)
+  let r2 := sc.ewrs.foldl (sc.addSys true) (r1.1, 0)
+  r2.1
 
 /-! ### canonical text -/
 
